@@ -188,12 +188,12 @@ def c07(res, tier, seed):
     bad, known, states = func.tlc_judge2(records, wd, "c07")
     res.cov["states"] += states; res.cov["transitions"] += states
     res.cov["traces_validated_against_impl"] += len(records) - len(bad)
-    for b in bad[:10]:
+    for b in bad[:200]:
         kind, src, ret, msgs = owners[b]
         res.violation("compile contract broken for a %s mutant: ret=%s, error messages %s ; source %s" % (kind, ret, msgs, src[:300]),
                       yv.save_replay("C07", "contract_%d" % b, {"kind": kind, "source": src, "record": records[b]}))
-    for b in bad[10:]:
-        res.violations.append(("(further rejected case)", "-"))
+    if len(bad) > 200:
+        res.cov["parts"]["further_rejected_cases"] = len(bad) - 200
     rej = sum(1 for rec in records if rec["ret"] > 0)
     res.cov["distinct_nontrivial"] = rej
     res.cov["parts"]["rejected_by_compiler"] = rej
